@@ -146,6 +146,7 @@ pub open spec fn lib_exp(g: tproto::Library, lib: Library) -> bool {
     &&& g.domain@ == lib.name@
     &&& exists|order: Seq<Ptr<Cell>>| is_dep_ordering(order, lib.cells@, |c: Ptr<Cell>| cell_deps(c)) && #[trigger] cells_exp(g.cells@, order)
 }
+pub open spec fn derefs(s: Seq<&Ptr<Cell>>) -> Seq<Ptr<Cell>> { Seq::new(s.len(), |i: int| *s[i]) }
 pub open spec fn cells_exp(g: Seq<tproto::Cell>, order: Seq<Ptr<Cell>>) -> bool {
     g.len() == order.len() && forall|i: int| 0 <= i < order.len() ==> cell_exp(#[trigger] g[i], *order[i].v)
 }
@@ -221,14 +222,20 @@ impl<'lib> ProtoExporter<'lib> {
 //@ fn layout21tetris/src/conv/proto.rs :: impl<'lib> ProtoExporter<'lib> :: fn export_lib
 //@   ret r
 //@   let plib : tproto::Library
-//@   sub R6 /for cell in CellOrder::order\(&self\.lib\.cells\)\?\.iter\(\) \{/ => let vp_order = CellOrder::order(&self.lib.cells)?; for cell in vp_order.iter() {
+//@   sub R6? /for cell in CellOrder::order\(&self\.lib\.cells\)\?\.iter\(\) \{/ => let vp_order = CellOrder::order(&self.lib.cells)?; proof { vp_all = vp_order@; } for cell in vp_order.iter() {
+//@   sub R5? /self\.lib\.cells\.iter\(\)/ => self.lib.cells.v.iter()
 //@   spec
 //|     ensures r is Ok ==> lib_exp(r->Ok_0, *old(self).lib),
+//@   atstart
+//|         // the sequence of cells the export loop runs over (until the loop header says otherwise: the library's own listing)
+//|         let ghost mut vp_all: Seq<Ptr<Cell>> = self.lib.cells@;
 //@   loop 1 iter it
-//|             invariant plib.domain@ == old(self).lib.name@, plib.cells@.len() == it.index@, it.index@ <= vp_order@.len(),
-//|                 forall|i: int| 0 <= i < it.index@ ==> cell_exp(#[trigger] plib.cells@[i], *vp_order@[i].v),
+//|             invariant plib.domain@ == old(self).lib.name@, plib.cells@.len() == it.index@, it.index@ <= it.seq().len(),
+//|                 // whatever sequence the loop runs over is a dependency ordering of the library's cell list
+//|                 derefs(it.seq()) =~= vp_all, is_dep_ordering(vp_all, old(self).lib.cells@, |c: Ptr<Cell>| cell_deps(c)),
+//|                 forall|i: int| 0 <= i < it.index@ ==> cell_exp(#[trigger] plib.cells@[i], *vp_all[i].v),
 //@   before /^        Ok\(plib\)$/
-//|         proof { assert(cells_exp(plib.cells@, vp_order@)); }
+//|         proof { assert(cells_exp(plib.cells@, vp_all)); }
 //@ end
 //@ fn layout21tetris/src/conv/proto.rs :: impl<'lib> ProtoExporter<'lib> :: fn export_cell
 //@   ret r
@@ -262,6 +269,15 @@ pub mod interface { pub struct Bundle { } }
 pub struct RawLayoutPtr { }
 //@ item layout21tetris/src/cell.rs :: struct Cell
 //@ end
+/// model of `impl From<Layout> for Cell` (cell.rs): named after the layout, only the layout view
+impl vstd::std_specs::convert::FromSpecImpl<Layout> for Cell {
+    open spec fn obeys_from_spec() -> bool { true }
+    open spec fn from_spec(src: Layout) -> Cell { Cell { name: src.name, interface: None, abs: None, layout: Some(src), raw: None } }
+}
+impl From<Layout> for Cell {
+    #[verifier::external_body]
+    fn from(src: Layout) -> (r: Cell) ensures r.name@ == src.name@, r.layout == Some(src), r.abs is None { unimplemented!() }
+}
 impl Cell {
     /// model of Cell::new(impl Into<String>): the name, every view absent (`..Default::default()`)
     #[verifier::external_body]
